@@ -50,6 +50,33 @@ Definition mon_C13 (sc : scen) (obs : list callobs) : bool :=
 
 Definition check_C13 := check_with ps_C13 mon_C13.
 
+(* the same statement on a POISONED wrapper: the history first poisons the root (an exclusive scoped call with a lent key
+   whose closure panics; every leaf is free, so that call runs), then tries.  "try succeeds iff no leaf is held": the
+   poison flag changes what the successful call returns (an error carrying a working guard / Err for the closure), never
+   whether it acquires. *)
+Definition ok_or_poisoned (r : rcode) : bool := rcode_eqb r ROk || rcode_eqb r RPoisoned.
+
+Definition mon_C13p (sc : scen) (obs : list callobs) : bool :=
+  let pre := pre_holds sc in
+  match sc_hist sc, obs with
+  | [(t, AKeyGet); (_, AAcquire c0 Ex (FScoped true _)); (_, AAcquire c m FTry); (_, AGuardDrop)], [o1; op; o2; o3] =>
+      match nth_error (sc_colls sc) c with
+      | Some s =>
+          rcode_eqb (co_ret op) RPanicked && holds_sim (co_holds op) pre &&
+          ok_or_poisoned (co_ret o2) && all_held m t (leaves s) (co_holds o2) &&
+          rcode_eqb (co_ret o3) ROk && holds_sim (co_holds o3) pre
+      | None => false
+      end
+  | [(t, AKeyGet); (_, AAcquire c0 Ex (FScoped true _)); (_, AAcquire c m (FScopedTry lent body))], [o1; op; o2] =>
+      rcode_eqb (co_ret op) RPanicked && holds_sim (co_holds op) pre &&
+      (rcode_eqb (co_ret o2) ROk || rcode_eqb (co_ret o2) RPanicked) &&
+      existsb (fun e => match e with EMark _ _ => true | _ => false end) (co_evs o2) &&
+      holds_sim (co_holds o2) pre
+  | _, _ => false
+  end.
+
+Definition check_C13p := check_with ps_C13 mon_C13p.
+
 (* ---------------------------------------------------------------- C07: duplicate detection is exact *)
 (* [sorting]: boxed/ref (true) or retrying (false); [got]: the checked constructor returned Some *)
 Definition model_try_new (sorting : bool) (am : addrmap) (s : shape) : bool :=
